@@ -70,6 +70,26 @@ def program(form, place):
         return "def outer():\n" + "".join("    " + l + "\n" for l in lines) + \
                "    def inner():\n        return sorted((k, getattr(v, '__name__', v)) for k, v in CAP().items())\n" + \
                "    CAP = lambda: {k: v for k, v in locals().items() if k not in ('inner', 'CAP') and not k.startswith('__ol_')}\n    return inner()\nL(outer())\n"
+    if place in ('captured-def', 'captured-twice'):
+        # the names bound by the import are read by a nested def (real cell variables); 'captured-twice': a function
+        # further out binds the same names too, so a wrong owner would be visible
+        import ast as _ast
+        bound = []
+        try:
+            for st in _ast.parse(form).body:
+                if isinstance(st, (_ast.Import, _ast.ImportFrom)):
+                    for a in st.names:
+                        if a.name != "*":
+                            bound.append(a.asname or a.name.split(".")[0])
+        except SyntaxError:
+            pass
+        refs = ", ".join(f"('{b}', getattr({b}, '__name__', {b}))" for b in bound)
+        inner = "".join("    " + l + "\n" for l in lines) + f"    def inner():\n        return [{refs}]\n    return inner()\n"
+        if place == 'captured-def':
+            return "def outer():\n" + inner + "L(outer())\n"
+        pre = "".join(f"    {b} = 'outermost'\n" for b in bound)
+        return "def outermost():\n" + pre + "    def outer():\n" + "".join("    " + l for l in inner.splitlines(True)) + \
+               "    return outer(), [" + ", ".join(bound) + "]\nL(outermost())\n"
     if place == 'nested-function':
         return "def outer():\n    def fn():\n" + "".join("        " + l + "\n" for l in lines) + \
                "        return sorted((k, getattr(v, '__name__', v)) for k, v in locals().items() if not k.startswith('__ol_'))\n    return fn()\nL(outer())\n"
@@ -96,7 +116,7 @@ def main(argv):
         elif f.startswith('from .'):
             level = 1
         pkg = {0: None, 1: 'pk', 2: 'pk.sub'}[level]
-        for place in ('module', 'function', 'class', 'conditional', 'nested-function', 'captured'):
+        for place in ('module', 'function', 'class', 'conditional', 'nested-function', 'captured', 'captured-def', 'captured-twice'):
             src = program(f, place)
             o = run(src, 'exec', pkg)
             if any(x.startswith('EXC') for x in o[0]):
